@@ -4,6 +4,7 @@ extern crate proc_macro;
 pub use expand::fn_timeline_src as fn_timeline;
 
 mod c15;
+mod c16;
 mod expand;
 mod genrun;
 mod gt;
@@ -42,6 +43,7 @@ fn main() {
         let v: serde_json::Value = serde_json::from_str(&txt).unwrap_or_else(|e| machinery_fail(&format!("parse {path}: {e}")));
         let ok = match id.as_str() {
             "C15" => c15::replay(&v["case"]),
+            "C16" => c16::replay(&v["case"]),
             _ => machinery_fail("no replay for this id"),
         };
         if ok {
@@ -54,6 +56,7 @@ fn main() {
     let run = Run::start(&id, &tier);
     match id.as_str() {
         "C15" => c15::run(run),
+        "C16" => c16::run(run),
         _ => machinery_fail("unknown property id"),
     }
 }
